@@ -201,7 +201,7 @@ var propsB = map[string]*propInfo{
 		Oracles: []string{"C12.log invariants (result equals some one-at-a-time order)", "C12.isolation (blocked-by-other-key; lock-timeout-behind-idle-holder: a lease runs out only behind a holder that waits for the database)", "C12.observer-sees-the-log", "C12.every-call-returns (incl. hang/<function>: orda code waiting for good on an object outside the simulated world, read from the goroutine stacks of a run that stopped)", "C12.one-client-per-id", "C12.process-crash", "C12.no-race (race detector over the explored deterministic schedules)"}},
 	"C13": {Rule: sprintf(ruleB, "a datatype was entered by subscribe or subscribe-or-create, or an entry was refused"),
 		Oracles: []string{"C13.refused-cleanly", "C13.one-datatype-per-key", "C13.first-state", "C13.subscribed-once (also for entries a realtime client makes by itself)", "C13.same-key-again (a client asked again for a key it holds: same type - the object it has; other type - nothing, and the error if it gave a handler)", "C13.process-crash (e.g. a handler that was not registered is called)"}},
-	"C14": {Rule: sprintf(ruleB, "at least two clients pushed and at least one exchange both pushed and pulled (value-shape swarm)"),
+	"C14": {Rule: sprintf(ruleB, "at least two clients pushed and at least one exchange both pushed and pulled (value-shape swarm; a third of the transactions carry a tag from a pool of quotes, backslashes, control characters, DEL and code points outside the BMP)"),
 		Oracles: []string{"C14.store (operation read back from the store with the real BSON codec equals what the client sent)", "C14.peer (operation pulled by a peer equals what its issuer sent)", "C14.echo", "C14.same-effect / local-value-native (Go-native values incl. 64-bit integers beyond 2^53, pointers, structs, nil slices)", "C14.no-panic"}},
 	"C16": {Rule: sprintf(ruleB, "at least one mutated request was sent by the rogue actor"),
 		Oracles: []string{"C16.answered", "C16.server-alive", "C16.refused-changes-nothing (incl. what a read-only observer is handed)", "C16.log-stays-sound", "C16.error-reported / error-not-applied", "C16.client-survives"}},
